@@ -846,3 +846,75 @@ package gohlslib
 //@   atcall muxerSegmenter.fmp4WriteSample track.firstRandomAccessReceived
 //@   reachable result == nil && calls("muxerSegmenter.fmp4WriteSample") == 1
 //@ end
+
+// ---------------------------------------------------------------------------------------
+// C10 / C11 / C13: client (sequential logic; goroutines, channels and HTTP are outside the VCs)
+
+//@ func fmp4PickLeadingTrack
+//@   props C10 C13
+//@   requires init != nil && len(init.Tracks) >= 1 && forall(i, (0 <= i && i < len(init.Tracks)) ==> (init.Tracks[i] != nil && init.Tracks[i].Codec != nil))
+//@   ensures exists(i, 0 <= i && i < len(init.Tracks) && init.Tracks[i].ID == result)
+//@   loop 1 invariant ri < len(init.Tracks)
+//@ end
+
+//@ func findFirstPartTrackOfLeadingTrack
+//@   props C10 C13
+//@   requires forall(i, (0 <= i && i < len(parts)) ==> (parts[i] != nil && forall(j, (0 <= j && j < len(parts[i].Tracks)) ==> parts[i].Tracks[j] != nil)))
+//@   ensures result != nil ==> result.ID == leadingTrackID
+//@   loop 1 invariant ri < len(parts)
+//@   loop 2 invariant ri < len(part.Tracks)
+//@ end
+
+//@ func findTimeScaleOfLeadingTrack
+//@   props C10 C13
+//@   requires forall(i, (0 <= i && i < len(tracks)) ==> tracks[i] != nil)
+//@   ensures result != 0 ==> exists(i, 0 <= i && i < len(tracks) && tracks[i].ID == leadingTrackID && tracks[i].TimeScale == result)
+//@   loop 1 invariant ri < len(tracks)
+//@ end
+
+//@ func clientTimeConvFMP4.convert
+//@   props C09 C10 C13
+//@   requires clockRate >= 0 && ts.leadingTimeScale > 0
+//@   ensures result == v - (ts.leadingBaseTime * clockRate) / ts.leadingTimeScale
+//@ end
+
+//@ func clientTrack.handleData
+//@   props C10 C13
+//@   requires t.track != nil && t.onData != nil && ctx != nil && t.track.ClockRate > 0
+//@   modifies t.lastAbsoluteTime
+//@   ensures pts < 0 ==> (result == nil && calls("dyncall") == 0 && t.lastAbsoluteTime == old(t.lastAbsoluteTime))
+//@   ensures calls("dyncall") <= 1
+//@   ensures calls("dyncall") == 1 ==> (pts >= 0 && result == nil && t.lastAbsoluteTime == ntp && callarg("dyncall", 0, 0) == pts && callarg("dyncall", 0, 1) == dts && callarg("dyncall", 0, 2) == ref(data))
+//@   ensures (pts >= 0 && result == nil) ==> calls("dyncall") == 1
+//@ end
+
+//@ func clientTrackProcessorFMP4.initialize
+//@   props C13
+//@   requires t.track != nil && t.track.track != nil
+//@   modifies t.decodePayload, t.queue
+//@   ensures result == nil ==> t.decodePayload != nil
+//@ end
+
+//@ func clientTrackProcessorFMP4.process
+//@   props C10 C13
+//@   requires t.track != nil && t.track.track != nil && t.streamProcessor != nil && entry != nil && entry.partTrack != nil && ctx != nil
+//@   requires t.track.onData != nil && t.decodePayload != nil && t.track.track.ClockRate > 0
+//@   requires forall(i, (0 <= i && i < len(entry.partTrack.Samples)) ==> entry.partTrack.Samples[i] != nil)
+//@   modifies t.track.lastAbsoluteTime
+//@   ensures result == nil ==> calls("clientTrack.handleData") == len(entry.partTrack.Samples)
+//@   loop 1 invariant ri < len(entry.partTrack.Samples) && calls("clientTrack.handleData") == ri + 1
+//@   loop 1 invariant dts == entry.dts + sumdur(entry.partTrack.Samples, ri + 1)
+//@   loop 1 invariant forall(k, (0 <= k && k <= ri) ==> (callarg("clientTrack.handleData", k, 0) == t.track
+//@        && callarg("clientTrack.handleData", k, 3) == entry.dts + sumdur(entry.partTrack.Samples, k)
+//@        && callarg("clientTrack.handleData", k, 2) == entry.dts + sumdur(entry.partTrack.Samples, k) + entry.partTrack.Samples[k].PTSOffset))
+//@ end
+
+// ghost prefix sum of sample durations: sumdur(s, n) = s[0].Duration + ... + s[n-1].Duration
+//@ ufun sumdur(samples []*fmp4.PartSample, n int) int
+//@ axiom sumdur_def forall_as(a, []*fmp4.PartSample, forall(n, n >= 1 ==> sumdur(a, n) == sumdur(a, n - 1) + a[n - 1].Duration))
+//@ axiom sumdur_zero forall_as(a, []*fmp4.PartSample, sumdur(a, 0) == 0)
+
+// abstract contract of the func-typed field clientTrackProcessorFMP4.decodePayload (pure: reads the sample)
+//@ func clientTrackProcessorFMP4.decodePayload
+//@   like clientTrackProcessorFMP4.initialize$1
+//@ end
